@@ -42,7 +42,8 @@ def plan(prop, tier):
                          "prediction hashes taken on the rows every variant produces",
                     extra=["compared on probe rows (those not blanked in the 30%-NaN variant), which every variant predicts"])
     if prop == "C03":
-        return dict(scen=[("warm", fam if not q else fam[:3])], per=(4 if q else 12),
+        # `inter`: a model object fitted again on another meter after it was used - with the fresh-object reference histories
+        return dict(scen=[("warm", fam if not q else fam[:3]), ("inter", [f for f in fam if f[0] in ("daily", "billing")][:2] if q else fam)], per=(4 if q else 12),
                     rule="in-process histories with unrelated prior use (rng, settings, other fits) plus multi-process schedules (see schedules)",
                     extra=["OS-level timing interleavings of independent processes are not controlled"])
     raise KeyError(prop)
